@@ -43,6 +43,16 @@ _PIPE_NOTE = ("Trusted: Coq kernel, hand model coq/Model/Pipeline.v (payloads ar
               "(versatiles chunked reads, mbtiles SQL) are exercised at spec level by C01/C16 checks, not modelled here. Print Assumptions: closed.")
 
 PROPS = {
+    "C01": {
+        "cmd": "c01",
+        "theorems": ["C01_gen_index_variant", "C01_versatiles_layout", "C01_pmtiles_tile_id", "C01_pmtiles_directory", "C01_pmtiles_find", "C01_mbtiles_flip"],
+        "nontrivial": lambda l: (l.startswith("vtblocks") and ";" in l.split(" => ")[-1]) or (l.startswith("tileid") and not l.endswith("err") and not l.startswith("tileid 0 ")) or l.startswith("idcoord") or (l.startswith("pmdir.") and ";" in l),
+        "rule": "tile sets of 7 shapes (scattered with zoom gaps, across the 256 block border, dense low pyramid, duplicates around the 1000-byte de-duplication threshold, irregular extremes, distant blocks with empty blocks between, single tiles at the borders of levels 0..30; thorough adds sets of more than 16384 tiles) x 5 containers x 7 (format, compression) pairs are written with write_to_filename and reopened with get_reader: parameters, exact coverage, lookups over stored coordinates and their neighbours / parents / children, streams over level boxes, sub-boxes, empty and oversized boxes, metadata; every written file is ALSO decoded by decoders written for the harness from the published layouts (versatiles v02: header, brotli block index, 33-byte block definitions, 12-byte tile index entries; PMTiles v3: header, column-wise varint directories, Hilbert ids by quadrant recursion, leaf directories, clustered flag; MBTiles: plain SQL; tar / directory: member names) and must give the same mapping and declaration; correspondence lines: vtblocks (block grid and slot occupancy of the written file = the Coq writer model vt_write for the same coverage and tile set), tileid / idcoord (coordinates of the sets, level extremes, random deep coordinates, invalid ones) against the extracted loops and against the independent curve, pmdir.ser / pmdir.de / pmdir.find (generated, independently encoded and mutated directories; lookups around every entry) against the extracted serialiser, parser and binary search",
+        "level_text": "Proved in Coq: versatiles - for every coverage pyramid and every tile set the writer's block grid (one block per 256-cell, one slot per coordinate, via the C15 grid-partition and index-inverse theorems) answers every reader lookup with exactly the source tile and nothing outside the coverage; PMTiles - the two code-shaped tile-id loops (including the negative intermediates of `s-1-tx`) are inverse on all 32 levels, directories written by serialize_entries are read back unchanged, the binary search finds every entry of a sorted directory; MBTiles - the TMS flip is an involution. Byte offsets, de-duplication, compression and the tar/SQLite libraries are below the model: they are checked by the independent decoders on every run.",
+        "level_note": "Trusted: Coq kernel; models coq/Model/{VTFormat,TileId,PMDir,BBox}.v; extraction + driver; harness incl. its independent decoders (flate2, brotli, tar, SQLite libraries are shared with the implementation). Tile-id arithmetic is modelled over Z: the code computes in i64/u64 and the correspondence lines at the extremes of level 31 run with overflow checks on. Print Assumptions: closed.",
+        "partial": "byte-level layout (offsets, de-duplicated ranges, leaf directory split at 16 KiB, tar and directory naming, SQLite) is tested against independent decoders, not proved; the Coq layout theorem covers coordinate -> block -> slot addressing, tile ids and directory encoding",
+        "harness_timeout": 1500,
+    },
     "C02": {
         "cmd": "c02",
         "theorems": ["C02_gen_relations", "C02_stream_equals_lookups", "C02_lookup_total", "C02_operators_preserve"],
